@@ -148,6 +148,36 @@ func c16OverwriteCheck(c c16Overwrite) error {
 	if err := compareWalkers(pj2, allWalkers, mc); err != nil {
 		return fmt.Errorf("no-copy mode (input intact): %v", err)
 	}
+	// the same with a ParsedJson that served another no-copy parse before, read through accessor destinations
+	// (Iter.Object(dst), Iter.Array(dst)) that were used on that earlier document
+	{
+		st := &w1State{}
+		prevIn := []byte(`{"earlier":["document","parsed","without","copying",{"deeper":{"k":["v","w"]}}],"k":"v","a":[[["x"]]]}`)
+		prev, perr := simdjson.Parse(prevIn, nil, simdjson.WithCopyStrings(false))
+		if perr != nil {
+			return bugf("%v", perr)
+		}
+		if _, err := walkW1State(prev, st); err != nil {
+			return bugf("%v", err)
+		}
+		in4 := append([]byte(nil), c.Doc...)
+		var pj4 *simdjson.ParsedJson
+		if c.ND {
+			pj4, err = simdjson.ParseND(in4, prev, simdjson.WithCopyStrings(false))
+		} else {
+			pj4, err = simdjson.Parse(in4, prev, simdjson.WithCopyStrings(false))
+		}
+		if err != nil {
+			return fmt.Errorf("no-copy mode into a reused object rejects the document: %v", err)
+		}
+		got, err := walkW1State(pj4, st)
+		if err != nil {
+			return fmt.Errorf("no-copy mode into a reused object, recycled Object/Array destinations (input intact): %v", err)
+		}
+		if want := mc(canonOpts{}); !bytes.Equal(got, want) {
+			return fmt.Errorf("no-copy mode into a reused object, recycled Object/Array destinations (input intact): %s", diffCanon(want, got))
+		}
+	}
 	// what the caller took out while the input was intact stays its own: Go strings and interface{} trees are values
 	it0 := pj2.Iter()
 	taken, terr := it0.Interface()
